@@ -1,0 +1,66 @@
+//go:build verif
+
+// Contracts for package builtin, checked by /verif/gocv (comment-only file; no code).
+// Syntax: see /verif/DESIGN.md, section 4 and appendix A.
+
+package builtin
+
+//@ spec func finite(i ast.Interval) bool = i.Start.Type == ast.TimestampBound && i.End.Type == ast.TimestampBound
+//@ spec func wfIv(i ast.Interval) bool =
+//@      (i.Start.Type == ast.TimestampBound || i.Start.Type == ast.NegativeInfinityBound) &&
+//@      (i.End.Type == ast.TimestampBound || i.End.Type == ast.PositiveInfinityBound) &&
+//@      (finite(i) ==> i.Start.Timestamp <= i.End.Timestamp)
+//@ spec func lo(i ast.Interval) int64 = i.Start.Type == ast.TimestampBound ? i.Start.Timestamp : MinInt64
+//@ spec func hi(i ast.Interval) int64 = i.End.Type == ast.TimestampBound ? i.End.Timestamp : MaxInt64
+//@ spec func covers(i ast.Interval, t int64) bool = lo(i) <= t && t <= hi(i)
+
+// The nine relations, from the table in readthedocs/temporal.md, on closed intervals.
+
+//@ func intervalBefore(t1, t2)
+//@   pure
+//@   ensures finite(t1) && finite(t2) ==> result == (t1.End.Timestamp < t2.Start.Timestamp)
+//@   ensures wfIv(t1) && wfIv(t2) && result ==> (forall t int64 :: !(covers(t1, t) && covers(t2, t)))
+
+//@ func intervalAfter(t1, t2)
+//@   pure
+//@   ensures finite(t1) && finite(t2) ==> result == (t1.Start.Timestamp > t2.End.Timestamp)
+//@   ensures result == intervalBefore(t2, t1)
+
+//@ func intervalMeets(t1, t2)
+//@   pure
+//@   ensures finite(t1) && finite(t2) ==> result == (t1.End.Timestamp == t2.Start.Timestamp)
+
+//@ func intervalOverlaps(t1, t2)
+//@   pure
+//@   ensures wfIv(t1) && wfIv(t2) ==> (result <==> (exists t int64 :: covers(t1, t) && covers(t2, t)))
+
+//@ func intervalDuring(t1, t2)
+//@   pure
+//@   ensures finite(t1) && finite(t2) ==> result == (t2.Start.Timestamp <= t1.Start.Timestamp && t1.End.Timestamp <= t2.End.Timestamp)
+//@   ensures finite(t1) && wfIv(t1) && wfIv(t2) ==> (result <==> (forall t int64 :: covers(t1, t) ==> covers(t2, t)))
+
+//@ func intervalContains(t1, t2)
+//@   pure
+//@   ensures result == intervalDuring(t2, t1)
+//@   ensures finite(t2) && wfIv(t1) && wfIv(t2) ==> (result <==> (forall t int64 :: covers(t2, t) ==> covers(t1, t)))
+
+//@ func intervalStarts(t1, t2)
+//@   pure
+//@   ensures wfIv(t1) && wfIv(t2) ==> result == (lo(t1) == lo(t2) && t1.Start.Type == t2.Start.Type)
+
+//@ func intervalFinishes(t1, t2)
+//@   pure
+//@   ensures wfIv(t1) && wfIv(t2) ==> result == (hi(t1) == hi(t2) && t1.End.Type == t2.End.Type)
+
+//@ func intervalEquals(t1, t2)
+//@   pure
+//@   ensures finite(t1) && finite(t2) ==> result == (t1.Start.Timestamp == t2.Start.Timestamp && t1.End.Timestamp == t2.End.Timestamp)
+//@   ensures wfIv(t1) && wfIv(t2) && result ==> (forall t int64 :: covers(t1, t) <==> covers(t2, t))
+//@   ensures result == t1.Equals(t2)
+
+//@ lemma converseAfterBefore(a ast.Interval, b ast.Interval): intervalAfter(a, b) == intervalBefore(b, a)
+//@ lemma converseContainsDuring(a ast.Interval, b ast.Interval): intervalContains(a, b) == intervalDuring(b, a)
+//@ lemma equalsSymmetric(a ast.Interval, b ast.Interval): intervalEquals(a, b) == intervalEquals(b, a)
+//@ lemma equalsReflexive(a ast.Interval): wfIv(a) ==> intervalEquals(a, a)
+//@ lemma overlapsSymmetric(a ast.Interval, b ast.Interval): wfIv(a) && wfIv(b) ==> intervalOverlaps(a, b) == intervalOverlaps(b, a)
+//@ lemma beforeExcludesOverlap(a ast.Interval, b ast.Interval): wfIv(a) && wfIv(b) && intervalBefore(a, b) ==> !intervalOverlaps(a, b)
